@@ -583,9 +583,14 @@ func c20Run(c c20Case, r *hx.Rec) error {
 	var inters [][]byte
 	if c.Intermediate == "cli" && c.Tamper != "no-intermediate" {
 		interFile := filepath.Join(e.keys, "intermediate.crt")
-		_ = os.WriteFile(interFile, []byte(e.interPEM), 0o644)
+		bundle := e.interPEM
+		if c.Arg%2 == 0 {
+			// a chain file: several certificates in one file, the needed one is not the first
+			bundle = e.rootPEM + e.interPEM
+		}
+		_ = os.WriteFile(interFile, []byte(bundle), 0o644)
 		verifyArgs = append(verifyArgs, "-i", interFile)
-		inters = append(inters, []byte(e.interPEM))
+		inters = append(inters, []byte(bundle))
 	}
 	verifyNorm := c.Normalize && c.Tamper != "no-normalize"
 	if verifyNorm {
